@@ -550,7 +550,9 @@ func init() {
 		"time.now": func(fr *frame, args []value) value {
 			i := fr.i
 			i.clock++
-			return tuple{int64(i.clock), int32(0), int64(0)}
+			// the monotonic reading advances with the wall clock (comparisons of two readings
+			// taken in one process use it)
+			return tuple{int64(i.clock), int32(0), int64(i.clock) * 1000000000}
 		},
 		"time.runtimeNano": func(fr *frame, args []value) value {
 			fr.i.clock++
@@ -559,7 +561,7 @@ func init() {
 		"time.runtimeNow": func(fr *frame, args []value) value {
 			i := fr.i
 			i.clock++
-			return tuple{int64(i.clock), int32(0), int64(0)}
+			return tuple{int64(i.clock), int32(0), int64(i.clock) * 1000000000}
 		},
 		"time.initLocal": func(fr *frame, args []value) value { return nil },
 		"time.After": func(fr *frame, args []value) value { return &vchan{capacity: 1} },
